@@ -6,6 +6,10 @@
                   named mutations; parse_marker accepts what packaging accepts and raises InvalidMarker, and nothing else,
                   on what packaging rejects
 
+  ./check X03     PlatformFamilies.tla  (FreeBSD / NetBSD / OpenBSD / DragonFly / Haiku / Illumos / Generic platforms:
+                  Platform.__str__ / parse / compatible_tags / markers with the named deviations)   MC + B1: every state of the
+                  grid machine and every spelled name of the names machine is replayed on the real Platform
+
 These are NOT registered in MANIFEST.json (the property list is fixed); they print `DRIFT extra=<id> ...` and exit 1
 when the code leaves the specification, and write evidence-extra/<id>.json.  Nothing here can raise a VIOLATION.
 """
@@ -222,9 +226,127 @@ def run_x02(tier: str):
     return {"strings": total, "rejected_by_packaging": rej, "mutations": [m for m, _ in MARKER_MUTATIONS], "traces_validated_against_impl": total}, drift
 
 
+# --------------------------------------------------------------------------- X03: the other platform families
+FAM_INVS = ["RoundTripExact", "DeviationsExact", "OneTag", "ParseTotal", "MarkersFixed"]
+
+
+def _join(toks) -> str:
+    return "_".join("".join(t) for t in toks)
+
+
+def _fam_platform(c: dict):
+    from dep_logic.tags import os as dl_os
+    from dep_logic.tags.platform import Arch, Platform
+    cls = {"freebsd": dl_os.FreeBsd, "netbsd": dl_os.NetBsd, "openbsd": dl_os.OpenBsd, "dragonfly": dl_os.Dragonfly, "haiku": dl_os.Haiku}
+    arch = Arch(c["arch"])
+    if c["fam"] in cls:
+        return Platform(cls[c["fam"]]("".join(c["rel"])), arch)
+    if c["fam"] == "illumos":
+        return Platform(dl_os.Illumos("_".join(c["rel"]), c["oarch"]), arch)
+    return Platform(dl_os.Generic(c["name"]), arch)
+
+
+def _fam_project(p) -> dict:
+    o = p.os
+    fam = type(o).__name__.lower()
+    if fam == "generic":
+        return {"fam": "generic", "rel": "", "oarch": "", "name": o.name, "arch": p.arch.value}
+    if fam == "illumos":
+        return {"fam": fam, "rel": o.release, "oarch": o.arch, "name": "", "arch": p.arch.value}
+    return {"fam": fam, "rel": getattr(o, "release", "?"), "oarch": "", "name": "", "arch": p.arch.value}
+
+
+def _fam_parse(text: str) -> dict:
+    from dep_logic.tags.platform import Platform, PlatformError
+    try:
+        return {"k": "ok", "cfg": _fam_project(Platform.parse(text))}
+    except PlatformError:
+        return {"k": "PlatformError", "cfg": None}
+    except Exception as ex:  # noqa: BLE001
+        return {"k": type(ex).__name__, "cfg": None}
+
+
+def _want_parse(parsed: dict) -> dict:
+    if parsed["k"] != "ok":
+        return {"k": parsed["k"], "cfg": None}
+    c = parsed["cfg"]
+    return {"k": "ok", "cfg": {"fam": c["fam"], "rel": ("_".join(c["rel"]) if c["fam"] == "illumos" else "".join(c["rel"])),
+                               "oarch": c["oarch"], "name": c["name"], "arch": c["arch"]}}
+
+
+def run_x03(tier: str):
+    import shutil
+    import tempfile
+    from dep_logic.tags.platform import Platform
+    Platform.is_current = lambda self: False
+    cov: dict = {"tlc_runs": []}
+    drift: list = []
+    states: dict[str, list] = {}
+    tmp = tempfile.mkdtemp(prefix="verif_x03_")
+    try:
+        for spec, invs in (("GridSpec", FAM_INVS), ("NamesSpec", ["ParseTotal"])):
+            cfgp = os.path.join(tmp, spec + ".cfg")
+            open(cfgp, "w").write("\n".join([f"SPECIFICATION {spec}"] + [f"INVARIANT {i}" for i in invs] + ["CHECK_DEADLOCK FALSE"]) + "\n")
+            d = os.path.join(tmp, spec)
+            r = tla.run_tlc("PlatformFamilies.tla", cfgp, workers=4, args=["-dump", d])
+            if r.violated:
+                drift.append((f"X03:spec:{r.violated}", f"TLC: invariant {r.violated} violated in {spec}", {"tlc_tail": r.out[-1500:]}))
+                states[spec] = []
+                continue
+            tla.require_ok(r, "TLC PlatformFamilies " + spec)
+            states[spec] = tla.load_dump(d + ".dump")
+            cov["tlc_runs"].append({"module": "PlatformFamilies", "spec": spec, "invariants": invs, "distinct": r.distinct, "wall_s": round(r.wall, 1)})
+    finally:
+        shutil.rmtree(tmp, ignore_errors=True)
+    total = 0
+    for st in states.get("GridSpec", []):
+        c, ph = st["c"], st["phase"]
+        ctx = {"state": st}
+        try:
+            plat = _fam_platform(c)
+        except Exception as ex:  # noqa: BLE001
+            drift.append((f"X03:construct:raises-{type(ex).__name__}", repr(ex), ctx))
+            continue
+        total += 1
+        if ph == "named":                                     # action DoName: Platform.__str__
+            got = str(plat)
+            if got != _join(st["name"]):
+                drift.append((f"X03:str({c['fam']})", f"str({plat!r}) = {got!r}; specification {_join(st['name'])!r}", ctx))
+        elif ph == "parsed":                                  # action DoParse: Platform.parse(str(p))
+            got, want = _fam_parse(_join(st["name"])), _want_parse(st["parsed"])
+            if got != want:
+                drift.append((f"X03:parse(str({c['fam']}))", f"parse({_join(st['name'])!r}) -> {got}; specification {want}", ctx))
+            if (got["k"] == "ok" and Platform.parse(_join(st["name"])) == plat) != (st["parsed"]["k"] == "ok" and st["parsed"]["cfg"] == c):
+                drift.append((f"X03:roundtrip({c['fam']})", f"parse(str(p)) == p differs from the specification for {plat!r}", ctx))
+        elif ph == "tagged":                                  # action DoTags: compatible_tags + markers
+            try:
+                got = list(plat.compatible_tags)
+            except Exception as ex:  # noqa: BLE001
+                got = [f"raises-{type(ex).__name__}"]
+            want = [_join(t) for t in st["tags"]]
+            if got != want:
+                drift.append((f"X03:compatible_tags({c['fam']})", f"{plat!r}: {got}; specification {want}", ctx))
+            mk = plat.markers()
+            wantm = {"os_name": "posix", "sys_platform": "darwin" if c["fam"] == "illumos" else "linux", "platform_machine": c["arch"],
+                     "platform_system": "Linux", "platform_release": "", "platform_version": ""}
+            if mk != wantm:
+                drift.append((f"X03:markers({c['fam']})", f"{plat!r}: {mk}; specification {wantm}", ctx))
+    for st in states.get("NamesSpec", []):
+        if st["phase"] != "parsed":
+            continue
+        total += 1
+        text = _join(st["name"])
+        got, want = _fam_parse(text), _want_parse(st["parsed"])
+        if got != want:
+            drift.append((f"X03:parse(name):{want['k']}-vs-{got['k']}", f"parse({text!r}) -> {got}; specification {want}", {"state": st}))
+    cov.update(states=sum(len(v) for v in states.values()), traces_validated_against_impl=total,
+               named_deviations=["ReleaseTwice", "OpenBsdDropsRelease", "IllumosUnparseable", "IllumosIsDarwin", "GenericCaseFolded", "IllumosOldHasNoTag"])
+    return cov, drift
+
+
 def run(pid: str, tier: str, replay: str | None = None) -> int:
     t0 = time.time()
-    cov, drift = {"X01": run_x01, "X02": run_x02}[pid](tier)
+    cov, drift = {"X01": run_x01, "X02": run_x02, "X03": run_x03}[pid](tier)
     os.makedirs(OUT, exist_ok=True)
     first: dict[str, tuple] = {}
     for sig, detail, ctx in drift:
